@@ -76,6 +76,12 @@ K2Members == {K2Obj(x, y, w) : x \in {S0, S1}, y \in {S0, S1}, w \in {N1, N2}}
 K2Unique(t) == \A i, j \in DOMAIN t : i # j => (t[i].v["from"] # t[j].v["from"] \/ t[i].v["to"] # t[j].v["to"])
 Keyed2K == {Arr(t) : t \in {u \in TuplesUpTo(K2Members, 2) : K2Unique(u)}}
 
+(* targets and patch documents for RFC 7386 (C12): nulls and empty objects at every depth *)
+MV0 == {N1, S0, Null, EmptyObj, Arr(<<N1>>)}
+MD1 == ObjFam(2, MV0)
+MergeDocs == MV0 \cup MD1 \cup {O1("k0", d) : d \in MD1} \cup {O2("k0", d, "k1", x) : d \in MD1, x \in {N1, Null}}
+             \cup {O1("k0", O1("k1", d)) : d \in ObjFam(1, MV0)} \cup {Arr(<<N1, Null>>), EmptyArr, N2}
+
 (* type-confusable values for the equality oracle (C04) *)
 Confusable ==
   { Void, Null, Str(""), EmptyArr, EmptyObj, Num(0), Bool(FALSE), Bool(TRUE), Str("s0"),
